@@ -340,7 +340,7 @@ def specs_sir(tier):
         for (tw, rw) in ((None, None), ("w", "rw")):
             if (not es and tw) or big:
                 continue
-            for tmin, tmax in ((0, 2), (0, 2.5), (1.5, 3.5), (-2, 1)):
+            for tmin, tmax in ((0, 2), (0, 2.5), (1.5, 3.5), (-2, 1), (2, 1), (1.5, 1.5)):      # incl. an empty window (tmax <= tmin): nothing is reported but the start
                 for I0 in gr.subsets(nodes, 1, 1):
                     for full in (False, True):
                         out.append(dict(fn="Gillespie_SIR", n=n, edges=es, tw=tw, rw=rw, tau=1.1, gamma=0.7,
@@ -437,7 +437,7 @@ def specs_sis(tier):
                     out.append(dict(fn="Gillespie_SIS", n=n, edges=list(es) + [(1, 1), (0, 0)], tw=tw, rw=rw, tau=0.3, gamma=0.7, I0=list(I0),
                                     tmin=0, tmax=4.5, full=(len(I0) == 1)))
         # exact hit of tmax and shifted tmin
-        for tmin, tmax in ((0, 3), (1.5, 4.5), (-2, 0.5)):
+        for tmin, tmax in ((0, 3), (1.5, 4.5), (-2, 0.5), (2, 1), (1.5, 1.5)):
             for I0 in gr.subsets(nodes, 1, 1):
                 for full in (False, True):
                     out.append(dict(fn="Gillespie_SIS", n=n, edges=es, tw=None, rw=None, tau=0.3, gamma=0.7,
